@@ -106,7 +106,9 @@ func (c05) Rule() string {
 		"0, 1, one below / equal to / one above the real maximal placeholder count, far above, or -2 (order: only the second router; the answers must be those of the model, which has no such parameter). " +
 		"Mux requests: 65% are spelled as a request target and parsed as net/http does (url.ParseRequestURI), 15% canonically (URL.RawPath empty), 50% with escapes of the client's own on any byte with probability 1/2..1/7 " +
 		"('/' as %2F, letters, '-', '.', lower-case hex; URL.RawPath set), 8 more requests per case instantiate a key with values holding an escaped separator, '%', space, non-ASCII; one enumerated table asked for with every single byte of " +
-		"an instantiation escaped in turn; expected answer = the model's for the decoded URL.Path. Non-trivial: a table with a parameterised key and at least one lookup that is found with parameters or contains a reserved byte."
+		"an instantiation escaped in turn; expected answer = the model's for the decoded URL.Path. One parameter text in six (every generator family that draws texts) is a value with a STRUCTURE that path-handling code is tempted to refuse or clean: " +
+		"dot segments and look-alikes (.. . ... ..x x.. .hidden %2e%2e ..; back slashes, ~user, null, file names), for a catch-all 1-4 such segments or plain words joined by '/', now and then with a leading, trailing or doubled '/'; " +
+		"enumerated: a file-server-like table (/static/*filepath, /api/v1/files/*path, /:tenant/assets/*rest, /static/css/:name, /dl/:a/:b, /static, /) against every text of 1-3 segments over {.. . ... ..x a <empty>} behind every literal prefix, also through the Mux handler. Non-trivial: a table with a parameterised key and at least one lookup that is found with parameters or contains a reserved byte."
 }
 
 func (c05) Decode(raw json.RawMessage) (any, error) {
@@ -530,7 +532,47 @@ func c05Table(r *rand.Rand, size int) []string {
 	return keys
 }
 
+// c05ShapedSegs: parameter values with a STRUCTURE that code handling paths is tempted to treat specially (refuse,
+// clean, normalise): dot segments and their look-alikes, hidden files and file names, escaped dots, home
+// directories, back slashes, words a decoder reads as no value. To the router they are plain text: a segment
+// made of dots binds to ':name' like any other, and a catch-all carries every one of them through unchanged.
+var c05ShapedSegs = []string{"..", ".", "...", "....", "..x", "x..", ".x", "x.", ".hidden", "a.b", "main.css", "v1.2.3", "a.tar.gz",
+	"%2e%2e", "%2E%2E", "..;", "..%2f", "..\\x", "\\", "~", "~user", "-", "_", "+", "@", "null", "undefined", "index.html", "a b", "..", ".."}
+var c05PlainSegs = []string{"a", "b", "css", "img", "x1", "secret", "etc", "main.css"}
+
+// c05Shaped: one such segment for a ':name' value; for a catch-all 1-4 segments (shaped or plain words), now and
+// then with a leading, trailing or doubled separator.
+func c05Shaped(r *rand.Rand, slashOK bool) string {
+	if !slashOK {
+		return c05ShapedSegs[r.Intn(len(c05ShapedSegs))]
+	}
+	n := 1 + r.Intn(4)
+	segs := make([]string, n)
+	for i := range segs {
+		if r.Intn(2) == 0 {
+			segs[i] = c05ShapedSegs[r.Intn(len(c05ShapedSegs))]
+		} else {
+			segs[i] = c05PlainSegs[r.Intn(len(c05PlainSegs))]
+		}
+	}
+	sep := "/"
+	if r.Intn(10) == 0 {
+		sep = "//"
+	}
+	t := strings.Join(segs, sep)
+	if r.Intn(8) == 0 {
+		t = "/" + t
+	}
+	if r.Intn(6) == 0 {
+		t += "/"
+	}
+	return t
+}
+
 func c05Text(r *rand.Rand, slashOK bool) string {
+	if r.Intn(6) == 0 {
+		return c05Shaped(r, slashOK)
+	}
 	n := 0
 	switch k := r.Intn(10); {
 	case k < 1:
@@ -1247,7 +1289,11 @@ func c05LongInst(r *rand.Rand, key string) (path string, cuts []int) {
 				sb.WriteString(c05LongVals[r.Intn(len(c05LongVals))])
 			}
 		case '*':
-			sb.WriteString([]string{"a/b/c", "bc", "/", "x", "logs/2024/01.txt"}[r.Intn(5)])
+			if r.Intn(3) == 0 {
+				sb.WriteString(c05Shaped(r, true))
+			} else {
+				sb.WriteString([]string{"a/b/c", "bc", "/", "x", "logs/2024/01.txt"}[r.Intn(5)])
+			}
 			i = len(key)
 		case '/':
 			cuts = append(cuts, sb.Len(), sb.Len()+1)
@@ -1722,7 +1768,7 @@ func c05EncodeTarget(r *rand.Rand, p string, force map[int]bool, rate int) strin
 	return sb.String()
 }
 
-var c05ValueWords = []string{"alice", "denco", "a", "b", "7", "x-y", "v1.2", "caf\xc3\xa9", "50%", "a b", "r_1", "~u", "x:y", "q=1", "a+b"}
+var c05ValueWords = []string{"alice", "denco", "a", "b", "7", "x-y", "v1.2", "caf\xc3\xa9", "50%", "a b", "r_1", "~u", "x:y", "q=1", "a+b", "..", ".", "...", "..x", ".git"}
 
 // c05InstEscaped instantiates a key with values that hold what a client has to escape, among them the
 // separator itself: /user/:name asked for as /user/a%2Fb is the path /user/a/b. Returns the decoded path and
@@ -2041,6 +2087,69 @@ func c05EnumMux(r *rand.Rand) []any {
 	return []any{in}
 }
 
+// c05EnumDots: a file-server-like table; every text of 1-3 segments over {.. . ... ..x a <empty>} behind the literal
+// prefix of every route (as the catch-all text, as ':name' values, as a literal segment that is not there), and the
+// same requests through the Mux handler (net/http hands the path of a request to a handler of its own as it is).
+var c05DotsTable = []string{"/static/*filepath", "/api/v1/files/*path", "/:tenant/assets/*rest", "/static/css/:name", "/dl/:a/:b", "/static", "/"}
+
+func c05EnumDots() []any {
+	segs := []string{"..", ".", "...", "..x", "a", ""}
+	var texts []string
+	level := []string{""}
+	for n := 0; n < 3; n++ {
+		var next []string
+		for _, t := range level {
+			for _, s := range segs {
+				u := s
+				if n > 0 {
+					u = t + "/" + s
+				}
+				next = append(next, u)
+			}
+		}
+		texts = append(texts, next...)
+		level = next
+	}
+	seen := map[string]bool{}
+	var paths []string
+	for _, pre := range []string{"/static/", "/api/v1/files/", "/acme/assets/", "/../assets/", "/static/css/", "/dl/", "/"} {
+		for _, t := range texts {
+			if p := pre + t; !seen[p] {
+				seen[p] = true
+				paths = append(paths, p)
+			}
+		}
+	}
+	var out []any
+	for lo := 0; lo < len(paths); lo += 300 {
+		hi := lo + 300
+		if hi > len(paths) {
+			hi = len(paths)
+		}
+		in := c05In{Kind: "look", Pats: toBs(c05DotsTable), Paths: toBs(paths[lo:hi]), Flavour: "dots"}
+		if lo == 0 {
+			in.Kind = "tab"
+		}
+		for range in.Paths {
+			in.Origin = append(in.Origin, "enum")
+		}
+		out = append(out, in)
+	}
+	// through the handler: every 7th path, as URL.Path and as a request target
+	mux := c05In{Kind: "mux", Flavour: "dots"}
+	for _, k := range c05DotsTable {
+		mux.Pats, mux.Methods = append(mux.Pats, Bs(k)), append(mux.Methods, "GET")
+	}
+	for i := 0; i < len(paths); i += 7 {
+		t := ""
+		if i%2 == 0 {
+			t = paths[i]
+		}
+		mux.Paths, mux.ReqM, mux.Targets, mux.Origin = append(mux.Paths, Bs(paths[i])), append(mux.ReqM, "GET"), append(mux.Targets, Bs(t)), append(mux.Origin, "enum")
+	}
+	return append(out, mux)
+}
+
 func (c05) Enumerate(tier string) []any {
 	var out []any
 	consts := map[string]int{"ParamCharacter": 58, "WildcardCharacter": 42, "TerminationCharacter": 35, "SeparatorCharacter": 47,
@@ -2100,6 +2209,8 @@ func (c05) Enumerate(tier string) []any {
 	out = append(out, c05EnumLong(er, c05LongFixed)...)
 	// the handler of Mux.Build against requests spelled with percent-escapes
 	out = append(out, c05EnumMux(er)...)
+	// catch-all and single-segment values made of dot segments and their look-alikes
+	out = append(out, c05EnumDots()...)
 	// small-scope exhaustive part: every path up to a length over {a b / : * #} against small tables
 	letters := []byte("ab/:*#")
 	var all func(n int) []string
